@@ -281,7 +281,10 @@ def _check_after(c, R, mon, expected, fault_frame=None, tag=''):
         struct = ''
         if off != 0 and (flags['integrate_path'] or flags['integrate_t_profile']):
             struct = ':time-integration-with-offset'
-        rsig.compare(delta, value, bound, R, 'frame-delta-differs-from-shifted-time-signal' + struct, frame=k, offset=off, tag=tag)
+        # the signal is observed as a difference of float data: absorption of up to 1 ulp of the data on either side
+        absorb = np.spacing(np.maximum(np.abs(fr.data), np.abs(pre['data'][k])))
+        rsig.compare(delta, value, bound, R, 'frame-delta-differs-from-shifted-time-signal' + struct, extra=absorb,
+                     frame=k, offset=off, tag=tag)
         R.count('frames_compared')
         # the ts the frame saw during injection is its own ts shifted by its offset
         if k < len(last['seen_ts']):
